@@ -102,6 +102,16 @@ def lean_stage(pid: str, extra_targets=()) -> dict:
     return info
 
 
+def _explanation(pid: str) -> str:
+    """what the check establishes and how (the text registered for the property in prop_meta.py)"""
+    try:
+        import prop_meta
+        meta = prop_meta.META_ALL.get(pid) or {}
+        return meta.get("text") or f"see DESIGN.md, section on {pid}"
+    except Exception:  # noqa: BLE001
+        return f"see DESIGN.md, section on {pid}"
+
+
 def decide(ctx: Ctx, lean: dict, level: str, search=None, coverage_extra: dict | None = None,
            assumptions: list[str] | None = None) -> int:
     """apply the decision rule, write evidence, print VIOLATION / KNOWN-FINDING lines"""
@@ -162,7 +172,7 @@ def decide(ctx: Ctx, lean: dict, level: str, search=None, coverage_extra: dict |
         "known_findings_reproduced": sorted(ctx.known_hits),
         "exhaustive": ctx.exhaustive,
         "notes": ctx.notes,
-        "explanation": "",
+        "explanation": _explanation(pid),
     }
     if coverage_extra:
         cov.update(coverage_extra)
